@@ -31,6 +31,10 @@ type Act struct {
 	ID    *gen.ID128 `json:"id,omitempty"`
 	Ops   []*gen.Op  `json:"ops,omitempty"`
 	Yield int        `json:"yield,omitempty"` // scheduler perturbation before the step: n x Gosched, or a sleep of n microseconds when > 8
+	// Vanish > 0 (last step of a session): the client goes away while this request is being
+	// answered - writing the Vanish-th response fails - and the session ends there; the
+	// other sessions, readers and flushers go on
+	Vanish int `json:"vanish,omitempty"`
 }
 
 // Case is a concurrent workload.
@@ -57,7 +61,7 @@ type Case struct {
 
 func setup() {
 	c := ev.C()
-	c.Rule = "concurrent workloads built with -race: 2-4 Modify sessions (negotiated one after the other, then run from real goroutines: ascending election ids from per-session disjoint sets with deliberate ties across sessions, batches over per-session disjoint keys with globally unique operation ids), 0-2 Get readers and 0-2 Flush callers running concurrently over in-process streams (one random workload in four over a real grpc.Server on bufconn), GOMAXPROCS drawn from {2,4,16}, Gosched/microsleep perturbation at drawn points; plus election storms: 20-60 rounds in which 2-4 sessions announce distinct ids at the same moment (spin barrier), checked after every round. Oracle: no race-detector report (GORACE log parsed by the driver; signature = the racing gribigo functions), no panic/fatal error (process death is reported by the driver), every goroutine finishes under the watchdog (hang attributed from the goroutine dump), and at quiescence: learnt election id == maximum announced, primary is a session that announced it, every operation has exactly one terminal result, and - when no Flush overlapped - Get(ALL) equals the union of the per-session folds of acknowledged operations. Non-trivial = >=2 sessions announced while the others were still running and >=1 Get or Flush overlapped a Modify (measured with step counters); distinct by FNV-64 of the case JSON."
+	c.Rule = "concurrent workloads built with -race: 2-4 Modify sessions (negotiated one after the other, then run from real goroutines: ascending election ids from per-session disjoint sets with deliberate ties across sessions, batches over per-session disjoint keys with globally unique operation ids; one session in five ends with a request during which its client goes away - a response cannot be written - while the others go on), 0-2 Get readers and 0-2 Flush callers running concurrently over in-process streams (one random workload in four over a real grpc.Server on bufconn), GOMAXPROCS drawn from {2,4,16}, Gosched/microsleep perturbation at drawn points; plus election storms: 20-60 rounds in which 2-4 sessions announce distinct ids at the same moment (spin barrier), checked after every round. Oracle: no race-detector report (GORACE log parsed by the driver; signature = the racing gribigo functions), no panic/fatal error (process death is reported by the driver), every goroutine finishes under the watchdog (hang attributed from the goroutine dump), and at quiescence: learnt election id == maximum announced, primary is a session that announced it, every operation has exactly one terminal result, and - when no Flush overlapped - Get(ALL) equals the union of the per-session folds of acknowledged operations. Non-trivial = >=2 sessions announced while the others were still running and >=1 Get or Flush overlapped a Modify (measured with step counters); distinct by FNV-64 of the case JSON."
 	c.Assumptions = []string{"the Go scheduler owns the interleaving: evidence is the race detector's happens-before analysis on the executions seen, not coverage of all schedules"}
 }
 
@@ -68,6 +72,7 @@ type sessResult struct {
 	where     map[uint64][]string // for every result: "step/response" in which it arrived
 	sent      map[uint64]*gen.Op
 	ended     bool
+	vanished  bool
 	err       error
 	hang      *drive.Hang
 }
@@ -170,6 +175,10 @@ func runCase(c Case) *ev.Verdict {
 				mu.Lock()
 				modifySteps++
 				mu.Unlock()
+				if a.Vanish > 0 {
+					x.FailSends(a.Vanish)
+					r.vanished = true
+				}
 				if _, hg := x.Send(req); hg != nil {
 					r.hang = hg
 					return
@@ -320,8 +329,11 @@ func runCase(c Case) *ev.Verdict {
 		if r.hang != nil {
 			l2.HangFinding(v, "C11", r.hang)
 		}
-		if r.ended {
+		if r.ended && !r.vanished {
 			v.Fail("C11/session-ended", "session %d ended unexpectedly with %v", i, r.err)
+		}
+		if r.vanished {
+			v.Class("a-session-vanishes-mid-request")
 		}
 	}
 	for _, e := range auxErr {
@@ -393,6 +405,23 @@ func runCase(c Case) *ev.Verdict {
 			}
 		}
 		got, ok := l2.Observe(s, v, "C11", "at quiescence")
+		// operations of a request during which the client went away may or may not have been
+		// programmed (C10's subject): their keys are left out of the comparison
+		// (all keys of that session: its last request may also have released operations of
+		// its own that were held, and their acknowledgement was lost with the stream)
+		for _, acts := range c.Sessions {
+			if len(acts) == 0 || acts[len(acts)-1].Vanish == 0 {
+				continue
+			}
+			for _, a := range acts {
+				for _, o := range a.Ops {
+					if k, ok2 := model.KeyOf(o.NI, o.Proto()); ok2 {
+						delete(want, k)
+						delete(got, k)
+					}
+				}
+			}
+		}
 		if ok {
 			if d := obs.Diff(want, got); len(d) > 0 {
 				v.Fail("C11/state-vs-acknowledged:"+obs.DiffClass(d), "at quiescence Get(ALL) differs from the union of the per-session folds of acknowledged operations: %s", strings.Join(d, "; "))
@@ -584,6 +613,15 @@ func drawCaseN(rt *rapid.T, minActs, maxActs, elecOneIn int) Case {
 				ops = append(ops, o)
 			}
 			acts = append(acts, Act{K: "ops", Ops: ops, Yield: y})
+		}
+		if rapid.IntRange(0, 4).Draw(rt, "vanish?") == 0 && si > 0 {
+			// the session's last request is a batch during which the client goes away
+			var ops []*gen.Op
+			for j := 0; j < 4; j++ {
+				opid++
+				ops = append(ops, &gen.Op{ID: opid, NI: "DEFAULT", Kind: gen.NH, Act: gen.ADD, Key: fmt.Sprint(10*(si+1) + j%4), IP: fmt.Sprintf("192.0.2.%d", opid%250+1)})
+			}
+			acts = append(acts, Act{K: "ops", Ops: ops, Vanish: rapid.IntRange(1, 3).Draw(rt, "vanish-at")})
 		}
 		c.Sessions = append(c.Sessions, acts)
 	}
